@@ -38,18 +38,39 @@ def run(ctx, crate):
         cnt = ov.args[0] if ov.args else None
         ok_shape = False
         inc_bb = None
-        if cnt is not None and cnt[0] == "phi" and len(cnt[2]) == 2:
-            vals = list(cnt[2])
-            zero = [v for v in vals if v == ("const", "int", 0)]
-            inc = [v for v in vals if v[0] == "bin" and v[1] == "Add" and v[2] == ("rec", cnt[1]) and v[3] == ("const", "int", 1)]
-            ok_shape = len(zero) == 1 and len(inc) == 1
-            local = cnt[1][1]
-            for (bb, si, pr, kind, payload) in b.defs.get(local, []):
-                if kind == "rv" and payload["k"] != "use":
-                    inc_bb = bb
-                elif kind == "rv" and payload["k"] == "use" and payload["o"]["k"] != "const":
-                    inc_bb = bb
-        obs.append(Ob("R12.count", g.path, "total = 0, then +1 only", ok_shape, expected="counter defined by 0 and by counter + 1, nothing else",
+        nested = None  # (reset block of the per-section counter, block where it is added to the total)
+
+        def counter_defs(c):
+            """(zero def blocks, increment def blocks) of a counter local"""
+            z, i_ = [], []
+            for (bb, si, pr, kind, payload) in b.defs.get(c[1][1], []):
+                if kind == "rv" and payload["k"] == "use" and payload["o"]["k"] == "const":
+                    z.append(bb)
+                elif kind == "rv":
+                    i_.append(bb)
+            return z, i_
+
+        def leaf(c):
+            return c[0] == "phi" and len(c[2]) == 2 and ("const", "int", 0) in c[2] and ("bin", "Add", ("rec", c[1]), ("const", "int", 1)) in c[2]
+
+        if cnt is not None and leaf(cnt):
+            ok_shape = True
+            inc_bb = (counter_defs(cnt)[1] or [None])[-1]
+        elif cnt is not None and cnt[0] == "phi" and len(cnt[2]) == 2 and ("const", "int", 0) in cnt[2]:
+            # total += (entries of this section), the per-section count being itself 0 then +1 per entry
+            adds = [v for v in cnt[2] if v[0] == "bin" and v[1] == "Add" and v[2] == ("rec", cnt[1]) and leaf(v[3])]
+            if len(adds) == 1:
+                sub = adds[0][3]
+                z, i_ = counter_defs(sub)
+                tz, ti = counter_defs(cnt)
+                if len(z) == 1 and len(i_) == 1 and len(ti) == 1:
+                    outer_blocks = b.loops.get(g.outer.head, set()) if g.outer.head is not None else set()
+                    reset_ok = z[0] in outer_blocks and z[0] not in g.lines.blocks and b.dominates(z[0], g.lines.head)
+                    add_ok = ti[0] in outer_blocks and ti[0] not in g.lines.blocks and b.reaches(g.lines.head, ti[0]) and b.dominates(z[0], ti[0]) \
+                        and S.block_guard(b, ti[0]) == S.block_guard(b, z[0]) and len(b.loops_of(ti[0])) == len(b.loops_of(z[0]))
+                    ok_shape = bool(reset_ok and add_ok)
+                    inc_bb = i_[0]
+        obs.append(Ob("R12.count", g.path, "total = 0, then +1 only", ok_shape, expected="counter defined by 0 and by counter + 1 (or + a per-section count that is itself 0 then + 1 per entry, reset for every section and added once after its lines)",
                       found=show(cnt) if cnt is not None else None))
         inner = [s for s in g.pushes if g.in_loop(s, g.lines)]
         same = False
